@@ -98,9 +98,76 @@ def check_ping_and_sequence():
     return v
 
 
+def expected_event(ev):
+    return {"data": "\n".join(spec_lines(ev["data"])), "event": ev.get("event") or "message", "id": ev.get("id"),
+            "retry": ev.get("retry")}
+
+
+def check_response(iface, schedule, ping_interval=0.05):
+    """the real SendEventResponse of one interface, driven by the recording server: `schedule` is a list of (pause in
+    seconds before the event, event); pauses longer than ping_interval make the response emit keep-alive pings in between.
+    Every yielded event must arrive exactly once and in order; pings must be invisible to the parser."""
+    import asyncio
+    import time
+    from native.harness import run_wsgi, run_asgi, wsgi_environ, asgi_scope
+    import baize.wsgi as W
+    import baize.asgi as A
+    v = []
+    if iface == "wsgi":
+        def gen():
+            for pause, ev in schedule:
+                if pause:
+                    time.sleep(pause)
+                yield dict(ev)
+        rec = run_wsgi(W.SendEventResponse(gen(), ping_interval=ping_interval), wsgi_environ("GET", "/"))
+    else:
+        async def agen():
+            for pause, ev in schedule:
+                if pause:
+                    await asyncio.sleep(pause)
+                yield dict(ev)
+        rec = run_asgi(A.SendEventResponse(agen(), ping_interval=ping_interval), asgi_scope("GET", "/"))
+    if rec["exception"] is not None:
+        return ["%s SendEventResponse raised %r" % (iface, rec["exception"])]
+    if rec["problems"]:
+        v.append("protocol problems: %s" % rec["problems"][:2])
+    try:
+        text = rec["body"].decode("utf-8")
+    except UnicodeDecodeError as e:
+        return v + ["stream does not decode: %r" % e]
+    got = eventsource_parse(text)
+    want = [expected_event(ev) for _, ev in schedule if "data" in ev]
+    # retry is a reconnection hint of the block that carries it; id persists (last event id) - compare what the statement
+    # names: data, event name, id as set so far, in order
+    last = None
+    want2 = []
+    for w in want:
+        if w["id"] is not None:
+            last = w["id"]
+        want2.append((w["data"], w["event"], last))
+    got2 = [(g["data"], g["event"], g["id"]) for g in got]
+    if got2 != want2:
+        v.append("%s: yielded %d events, decoded %d: %r != %r" % (iface, len(want2), len(got2), got2[:6], want2[:6]))
+    n_pings = text.count(": ping")
+    if any(p > ping_interval * 2 for p, _ in schedule) and n_pings == 0:
+        v.append("%s: no keep-alive ping during a pause of more than two ping intervals" % iface)
+    return v
+
+
+SCHEDULES = [
+    [(0, {"data": "one"}), (0, {"data": "two", "id": "2"}), (0, {"data": "three\nlines", "event": "upd"})],
+    [(0, {"data": "first"}), (0.16, {"data": "second", "id": "2"}), (0, {"data": "third"}), (0.16, {"data": "fourth", "event": "e"})],
+    [(0.16, {"data": "after a quiet start"}), (0.16, {"data": "and another"})],
+    [(0, {"data": "a\rb\r\nc"}), (0.12, {"data": ""}), (0, {"data": "x", "retry": 10})],
+    [],
+]
+
+
 def replay(inputs):
     if inputs.get("kind") == "sequence":
         return {"violated": check_ping_and_sequence()}
+    if inputs.get("kind") == "response":
+        return {"violated": check_response(inputs["iface"], [(p, e) for p, e in inputs["schedule"]])}
     ev = {k: inputs[k] for k in ("data", "event", "id", "retry") if k in inputs}
     return {"violated": check_event(ev, inputs.get("charset", "utf-8"))}
 
@@ -149,9 +216,18 @@ def bounded(tier, seed):
     v = check_ping_and_sequence()
     if v:
         failures.append({"inputs": {"kind": "sequence"}, "violated": v})
+    for iface in ("wsgi", "asgi"):
+        for sched in SCHEDULES:
+            evals += 1
+            distinct.add(("resp", iface, len(sched), tuple(p for p, _ in sched)))
+            v = check_response(iface, sched)
+            if v and len(failures) < 10:
+                failures.append({"inputs": {"kind": "response", "iface": iface, "schedule": [[p, e] for p, e in sched]}, "violated": v})
     return {"evaluations": evals, "distinct_nontrivial": len(distinct), "failures": failures, "samples": samples,
             "rule": "data = 'a' + c + 'b' for %s; all data strings of length <= 3 over {a, space, ':', CR, LF, U+0085, U+2028, VT} "
-                    "with and without event/id/retry; data-less events; a sequence with interleaved pings; every block is decoded "
+                    "with and without event/id/retry; data-less events; a sequence with interleaved pings; the real SendEventResponse of "
+                    "both interfaces on the recording server with event schedules whose pauses exceed the ping interval (every "
+                    "yielded event exactly once, in order, pings invisible); every block is decoded "
                     "by a reference implementation of the WHATWG event-stream algorithm"
                     % ("every Unicode code point (exhaustive)" if tier == "thorough" else "every code point below U+3100 and 6000 sampled higher ones"),
             "exhaustive": tier == "thorough"}
